@@ -309,7 +309,7 @@ class C07(Prop):
     theorems = ["NV.C07.visibility_table", "NV.C07.visibility_any_flags", "NV.C07.visibility_lifted",
                 "NV.C07.driver_origins_never_refused", "NV.C07.bsearch_correct", "NV.C07.find_function_correct",
                 "NV.C07.find_offsets_are_path_sums", "NV.C07.cache_transparent_step", "NV.C07.cache_transparent",
-                "NV.C07.frame_offsets_correct", "NV.C07.built_alias_flags_agree", "NV.C07.inherit_flags_rule_is_spec"]
+                "NV.C07.frame_offsets_correct", "NV.C07.built_alias_flags_agree", "NV.C07.built_flags_agree", "NV.C07.built_inherits_in_world", "NV.C07.inherit_flags_rule_is_spec"]
     witness_theorems = ["NV.C07.Witness.old_cache_not_transparent"]
     consts = [("applyCacheBits", "APPLY_CACHE_BITS"),
               ("nameInherited", "NAME_INHERITED"), ("nameUndefined", "NAME_UNDEFINED"),
@@ -352,8 +352,8 @@ class C07(Prop):
                    "one-level flag-inheritance table",
                    "compress_function_tables / FIND_FUNC_ENTRY are validated as a round trip (model builds uncompressed entries, the "
                    "harness dumps through FIND_FUNC_ENTRY), not modelled",
-                   "heart_beat dispatch (prog->heart_beat index), simul_efun dispatch, efun function pointers and function pointers "
-                   "evaluated by another object (ORIGIN_FUNCTIONAL, bound functions) are not exercised",
+                   "simul_efun dispatch, efun function pointers and function pointers evaluated by another object "
+                   "(ORIGIN_FUNCTIONAL, bind()) are not exercised; the heart_beat origin is (call hb)",
                    "varargs / argument count normalisation (setup_variables) is outside the model",
                    "program deallocation and reuse of a program_t address while a cache entry still names it",
                    "programs loaded from saved binaries (see C17)"]
@@ -469,6 +469,18 @@ class C07(Prop):
         mk("prototypes", protos + ["names f0 f1 f2 f3 f4", "ld o1 p1", "ld o2 p2", "dump o1 o2", "call co o1 f0", "call co o1 f1",
                                    "call drv o1 f1", "call co o1 f2", "call drv o1 f3", "call co o2 f4", "call co o2 f2",
                                    "call drv o1 f2"])
+        # heart_beat origin: static heart_beat, inherited, overridden, prototype only, none at all
+        hbg = ["prog p0 d:-:f0:- d:static:heart_beat:Lf0",
+               "prog p1 i:private:p0 d:-:f1:-",
+               "prog p2 i:-:p0 d:static:heart_beat:S*.heart_beat",
+               "prog p3 p:static:heart_beat d:-:f0:-",
+               "prog p4 d:-:f0:-",
+               "prog p5 i:-:p1 i:-:p2 d:-:f2:-"]
+        seq = []
+        for o in ("o0", "o1", "o2", "o3", "o4", "o5"):
+            seq += ["call hb %s heart_beat" % o, "call co %s heart_beat" % o, "call drv %s heart_beat" % o]
+        mk("heart-beat-origin", hbg + ["names f0 f1 f2 heart_beat"] + ["ld o%d p%d" % (i, i) for i in range(6)]
+           + ["dump o0 o1 o2 o3 o4 o5"] + seq)
         # many names on two programs: positive/positive slot collisions in the 2^bits cache
         big0 = "prog p0 " + " ".join("d:%s:f%d:-" % ("static" if i % 3 == 0 else "-", i) for i in range(70))
         big1 = "prog p1 i:-:p0 " + " ".join("d:%s:f%d:%s" % ("private" if i % 4 == 0 else "-", i, "S*.f%d" % i)
@@ -487,6 +499,8 @@ class C07(Prop):
         g = {}
         order = []
         fpool = ["f%d" % i for i in range(rng.range(3, 7))]
+        if rng.chance(1, 2):
+            fpool.append("heart_beat")
         for k in range(n):
             P = AProg("p%d" % k)
             cands = [q for q in order if depth(g, q) <= 3]
@@ -507,7 +521,7 @@ class C07(Prop):
             g[P.name] = P
             order.append(P.name)
             vis = visible_names(g, P.name)
-            fnum = lambda f: int(f[1:])
+            fnum = lambda f: 99 if f == "heart_beat" else int(f[1:])     # heart_beat may call the others, never the reverse
             ndef = rng.range(1, min(4, len(fpool)))
             mine = sorted(rng.shuffle(fpool)[:ndef], key=fnum)
             for fn in mine:
@@ -548,7 +562,7 @@ class C07(Prop):
         g, order, fpool = self.gen_graph(rng)
         lines = [g[n].line() for n in order]
         extra = ["nosuch", "f9"]
-        lines.append("names " + " ".join(fpool + extra))
+        lines.append("names " + " ".join(fpool + extra + ([] if "heart_beat" in fpool else ["heart_beat"])))
         nobj = rng.range(1, min(3, len(order)))
         # prefer the most derived programs
         top = order[::-1]
@@ -565,7 +579,9 @@ class C07(Prop):
             if k == "call" or last is None:
                 fn = rng.choice(fpool) if rng.chance(9, 10) else rng.choice(extra)
                 last = (rng.choice(objs), fn)
-                o = rng.weighted([("co", 7), ("com", 1), ("drv", 5), ("cot", 2), ("rco", 1)])
+                o = rng.weighted([("co", 7), ("com", 1), ("drv", 5), ("cot", 2), ("rco", 1), ("hb", 1)])
+                if o == "hb":
+                    last = (last[0], "heart_beat")
                 lines.append("call %s %s %s" % (o, last[0], last[1]))
             elif k == "again":
                 # same object and name from another origin: the cache is hit with a different kind of caller
